@@ -225,7 +225,10 @@ class Ctx:
         for nm in sorted(F.atoms(a) | F.atoms(b)):
             if nm.startswith("int:") or nm.startswith("opq:") or "." not in nm:
                 continue
-            groups.setdefault(nm.split(".", 1)[1], []).append(nm)
+            import re as _re
+            # the same field of the two operands (A.avg / B.avg), or neighbouring elements of one array
+            # field (q[1] / q[2]: tied marker heights)
+            groups.setdefault(_re.sub(r"\[\d+\]", "[]", nm.split(".", 1)[1]), []).append(nm)
         sub, desc = {}, []
         for fld, names in groups.items():
             if len(names) >= 2:
